@@ -108,7 +108,9 @@ _IDX = __import__('re').compile(r'^(.*)\[(-?\d+)\]$')
 
 
 def ptr_add(a, d):
-    """('&', 'X[k]') + d -> ('&', 'X[k+d]'); None if not an indexed address"""
+    """('&', 'X[k]') + d -> ('&', 'X[k+d]'); a string literal + d -> an address in the object named after its text; None if not an indexed address"""
+    if isinstance(a, tuple) and len(a) == 2 and a[0] == 'str' and isinstance(a[1], str) and isinstance(d, int):
+        return a if d == 0 else ('&', 'LIT:%s[%d]' % (a[1].encode('latin-1', 'replace').hex(), d))
     if isinstance(a, tuple) and len(a) == 2 and a[0] == '&' and isinstance(a[1], str) and isinstance(d, int):
         m = _IDX.match(a[1])
         if m:
@@ -689,6 +691,11 @@ class Engine:
                     return None
                 p = self.canon(E, sub)
                 cv = self.const_table_cell(p) if p is not None and (p[:2] in ('G:', 'S:') or '::SL:' in p) and '[' in p else TOP
+                if p is not None and p.startswith('LIT:') and _IDX.match(p):
+                    # a byte of a string literal reached through pointer arithmetic: the literal's text, then its NUL
+                    bs_ = bytes.fromhex(p[4:p.index('[')]) + b'\0'
+                    k_ = int(_IDX.match(p).group(2))
+                    cv = fs(wrap(bs_[k_], 'char')) if 0 <= k_ < len(bs_) else TOP
                 if cv is not TOP:
                     T[x.id] = cv
                 elif p is not None and self.trackable(p):
@@ -752,7 +759,7 @@ class Engine:
                 if p and self.trackable(p):
                     # an address into an array steps exactly (bounded: beyond element 256 it becomes unknown)
                     ptr_only = old is not TOP and len(old) > 0 and all(isinstance(e, tuple) and ptr_add(e, 0) is not None and
-                                                                       -2 <= int(_IDX.match(e[1]).group(2)) <= 256 for e in old)
+                                                                       (e[0] == 'str' or -2 <= int(_IDX.match(e[1]).group(2)) <= 256) for e in old)
                     if old is not TOP and (self.hooks.precise_arith(p) or self.bounded_counter(p) or ptr_only):
                         d = 1 if '++' in op else -1
                         new = frozenset(wrap(e + d, x.type) if isinstance(e, int) else (lin_add(e, d) if is_lin(e) else (ptr_add(e, d) or e)) for e in old)
